@@ -827,6 +827,21 @@ def fam_conc(rng, tier="quick"):
     return out
 
 
+CLI = {"op": "cli", "users": [1, 2, 3]}
+
+
+def fam_cli(rng, cfg=CFG_B):
+    """The operator's view (private API behind teos-cli) along a history that goes through every kind of state: users with
+    and without appointments, a shared locator, triggered / resolved / dropped appointments, completion, expiry and purge."""
+    out = []
+    for k in range(3):
+        ops = [CLI, reg(1), reg(2), CLI, add(1, 1, valid(1)), add(2, 1, valid(1, 6)), add(1, 2, valid(2, 3)), add(2, 3, garbled(300)), CLI,
+               mine([D(1)]), CLI, mine([P(1)]), CLI, reg(3), add(3, 2, valid(2)), mine([D(2), D(3)]), CLI, reg(2), CLI]
+        ops += [x for _ in range(cfg["D"] + cfg["G"]) for x in (mine([]), CLI)] + [reg(1), CLI, {"op": "restart"}, POLL, CLI]
+        out.append(scen("cli-%d" % k, cfg if k else CFG_A, ops))
+    return out
+
+
 def fam_oddnode(rng, cfg=CFG_A):
     """C02/C01/C11: the node answers the mempool query of a breach with something unexpected (an undocumented error code, a
     result that is not a transaction): that is no statement that the node has the penalty - it must still be submitted."""
